@@ -1,10 +1,11 @@
 (** C03 — compiled execution equals the dataflow meaning of the user's graph.
     Models: Graph/Net.v (compilers, loaders, executor), Graph/Denote.v (user-level meaning used
     as the decidable spec on implementation outputs).  Proofs: Proofs/C03_Exec.v, C03_Compile.v,
-    C03_Ancestors.v, C03_EndToEnd.v, C03_Twins.v, C03_ModelOk.v. *)
+    C03_Ancestors.v, C03_EndToEnd.v, C03_Twins.v, C03_ModelOk.v; the declared graph: Graph/Declared.v,
+    Proofs/C03_Declared.v. *)
 From Coq Require Import List String ZArith Arith Bool.
 From Elfi Require Import Graph.Net Graph.Denote Proofs.C03_Exec Proofs.C03_Compile Proofs.C03_Ancestors Proofs.C03_EndToEnd
-     Proofs.C03_Twins Proofs.C03_ModelOk.
+     Proofs.C03_Twins Proofs.C03_ModelOk Graph.Declared Proofs.C03_Declared.
 Import ListNotations.
 
 (** The dataflow meaning [Den] of a loaded net is a function of the net. *)
@@ -262,3 +263,82 @@ Proof.
   - exact (outputs_wf_b_sound _ _ (wf_nodup _ Hwf) Hob).
   - exact C03_example.
 Qed.
+
+(** ---- the DECLARED graph (parents attached through node constructors and through explicit
+    GraphicalModel.add_edge calls, in any order, with explicit positions / names) ---- *)
+
+(** What the decidable check [Declared.dok] of the correspondence states: the parameters declared for
+    one child are pairwise distinct, the implementation's source net carries exactly the declared
+    (parent, child, parameter) triples, and the implementation's result satisfies [Denote.ok] - values
+    = dataflow meaning with positional parents in declared order, etc. - for the DECLARED graph as well
+    as for the net the implementation holds. *)
+Theorem C03_declared_ok_sound :
+  forall c, dok c = true ->
+    (forall e, In e (d_decl c) -> NoDup (map snd (preds (d_decl c) (e_dst e))))
+    /\ (forall e, In e (d_decl c) <-> In e (s_edges (k_src (d_case c))))
+    /\ ok (declared_case c) = true
+    /\ ok (d_case c) = true.
+Proof. exact dok_sound. Qed.
+Print Assumptions C03_declared_ok_sound.
+
+(** The model's own run on a net that carries a well-formed declaration passes [Declared.dok]. *)
+Theorem C03_model_declared_ok :
+  forall src outs W out log,
+    wfsrc src -> NoDup (map fst W) -> (forall k, In k (map fst W) -> ~ In k inames) ->
+    outputs_wf src outs -> decl_wf (s_edges src) = true ->
+    generate src outs W = Ok (out, log) ->
+    dok {| d_case := {| k_src := src; k_outputs := outs; k_with := W; k_impl := ImplOk out (op_log src log) |};
+           d_decl := s_edges src |} = true.
+Proof. exact model_dok. Qed.
+Print Assumptions C03_model_declared_ok.
+
+(** GraphicalModel.add_edge with an explicit parameter stores the parameter as declared: for EVERY
+    script of explicit add_edge calls (any order of the calls; any positions, 0 attached last or sparse;
+    any names) that declares each ordered pair at most once, between existing nodes of a model without
+    an edge on a declared pair, every call is accepted and the model's edges afterwards are the old
+    edges followed by exactly the declared triples. *)
+Theorem C03_explicit_edges_are_declared :
+  forall d m,
+    (forall e, In e d -> has (e_src e) (s_nodes m) = true /\ has (e_dst e) (s_nodes m) = true) ->
+    distinct_pairs (s_edges m ++ d) = true ->
+    attach_all m d = Ok (with_edges m (s_edges m ++ d)).
+Proof. exact attach_all_declared. Qed.
+Print Assumptions C03_explicit_edges_are_declared.
+
+(** Non-vacuity: three constants and an operation created without parents; position 1 is attached
+    first, then a named parameter, then position 0 (to the node created last): the script is accepted,
+    the net carries the declaration, and the operation is called as h(A, B, key=C) - the parent
+    declared for position 0 first. *)
+Definition decl_nodes : list (name * sstate) :=
+  [("b"%string, ex_st "b"%string (Some (VConst 2)) false false false false false);
+   ("c"%string, ex_st "c"%string (Some (VConst 3)) false false false false false);
+   ("h"%string, ex_st "h"%string None true false false false false);
+   ("a"%string, ex_st "a"%string (Some (VConst 1)) false false false false false)].
+Definition decl_script : list edge :=
+  [("b"%string, "h"%string, PInt 1); ("c"%string, "h"%string, PStr "key"%string); ("a"%string, "h"%string, PInt 0)].
+Definition decl_src : snet := {| s_nodes := decl_nodes; s_edges := decl_script; s_observed := [] |}.
+Example C03_declared_example :
+  attach_all {| s_nodes := decl_nodes; s_edges := []; s_observed := [] |} decl_script = Ok decl_src
+  /\ decl_wf decl_script = true
+  /\ match generate decl_src ["h"%string] [] with
+     | Ok (out, log) =>
+         out = [("h"%string, VApp (OpUser "h"%string) [VConst 1; VConst 2] [("key"%string, VConst 3)])]
+         /\ dok {| d_case := {| k_src := decl_src; k_outputs := ["h"%string]; k_with := [];
+                                k_impl := ImplOk out (op_log decl_src log) |};
+                   d_decl := decl_script |} = true
+     | Err _ => False
+     end.
+Proof. vm_compute. repeat split. Qed.
+
+(** ... and the check refuses a net in which the parent declared for position 0 was stored on
+    another position (here: on position 1, next to the parent declared for position 1). *)
+Example C03_declared_example_refused :
+  dok {| d_case := {| k_src := {| s_nodes := decl_nodes;
+                                  s_edges := [("b"%string, "h"%string, PInt 1); ("c"%string, "h"%string, PStr "key"%string);
+                                              ("a"%string, "h"%string, PInt 1)];
+                                  s_observed := [] |};
+                      k_outputs := ["h"%string]; k_with := [];
+                      k_impl := ImplOk [("h"%string, VApp (OpUser "h"%string) [VConst 2; VConst 1] [("key"%string, VConst 3)])]
+                                       ["h"%string] |};
+         d_decl := decl_script |} = false.
+Proof. vm_compute. reflexivity. Qed.
